@@ -507,8 +507,6 @@ def _zero_branch(test):
             return "body"
         if isinstance(test.ops[0], ast.NotEq):
             return "orelse"
-    if isinstance(test, ast.UnaryOp) and isinstance(test.op, ast.Not) and isinstance(test.operand, ast.Name):
-        return "body"
     return None
 
 
